@@ -44,11 +44,34 @@ def plan(tier: str):
             ((2, 3), [["mul"], ["div"], ["eq"], ["le"], ["ne"]], False, "A", "B")]
 
 
-def apply(S, ev: dict):
+# the answers of these operators depend only on which entries are zero (logic) or on the order of the two
+# values (comparisons), so a common positive power-of-two factor on BOTH operands is a presentation of the call
+SCALE_FREE = {"and", "or", "xor", "not", "ones", "eq", "ne", "lt", "le", "gt", "ge"}
+MAGS = (0, 0, -600, 600)
+
+
+def mag_of(b: dict) -> int:
+    import hashlib
+    if b.get("mag") in MAGS:
+        return b["mag"]
+    return MAGS[hashlib.md5(json.dumps([b["init"], b["ev"]], sort_keys=True).encode()).digest()[2] % len(MAGS)]
+
+
+def apply(S, ev: dict, mag: int = 0):
     import bind
+    ttb = bind.ttb
     op = ev["op"]
     rv = ev["args"]["rhs"]
     r = float(rv["val"]) if rv["kind"] == "scalar" else bind.gamma(rv)
+    if mag and op in SCALE_FREE and S.vals.dtype.kind == "f":
+        f = 2.0 ** mag
+        S = ttb.sptensor(S.subs.copy(), S.vals * f, S.shape)
+        if isinstance(r, float):
+            r = r * f
+        elif isinstance(r, ttb.sptensor):
+            r = ttb.sptensor(r.subs.copy(), r.vals * f, r.shape)
+        else:
+            r = ttb.tensor(r.data * f)
     with np.errstate(all="ignore"):
         if op in PYOP:
             return PYOP[op](S, r)
@@ -81,11 +104,11 @@ def apply(S, ev: dict):
     raise ValueError(op)
 
 
-def call(S, ev):
+def call(S, ev, mag: int = 0):
     import bind
     ttb = bind.ttb
     try:
-        r = apply(S, ev)
+        r = apply(S, ev, mag)
         if isinstance(r, (ttb.tensor, ttb.sptensor)):
             return bind.alpha(r, conv=bind.rat)
         return {"kind": "other", "type": type(r).__name__}
@@ -176,17 +199,19 @@ def tags_of(tr: dict, k: int) -> List[str]:
 def record(stim: dict) -> dict:
     import bind
     S = bind.g_sparse(stim["init"])
-    return {"init": stim["init"],
-            "ev": [{"op": e["op"], "args": e["args"], "ret": call(S, e)} for e in stim["ev"]]}
+    mag = mag_of(stim)
+    return {"init": stim["init"], "mag": mag,
+            "ev": [{"op": e["op"], "args": e["args"], "ret": call(S, e, mag)} for e in stim["ev"]]}
 
 
 def replay(b: dict) -> dict:
     import bind
     S = bind.g_sparse(b["init"])
-    tr = {"init": b["init"], "ev": []}
+    mag = mag_of(b)
+    tr = {"init": b["init"], "mag": mag, "ev": []}
     divs, nontrivial = [], []
     for i, ev in enumerate(b["ev"]):
-        ret = call(S, ev)
+        ret = call(S, ev, mag)
         tr["ev"].append({"op": ev["op"], "args": ev["args"], "ret": ret})
         exp = ev["ret"]
         if any(v != ["q", 0, 1] for v in exp["v"]):
